@@ -17,6 +17,13 @@ static callers; callees store msg.sender / address / calldatasize and write stor
 failing. The storage of *every* account is compared. Not generated: symbolic targets, precompiles and cheat-code
 addresses, non-zero value, memory-limit violations inside callees (see the header of Model/SevmCalls.lean).
 
+CREATE (Model.SevmCalls with `Cfg.create`): one program in three contains CREATE sites — constructors that deploy a
+small runtime (which is then called: CALL / STATICCALL / DELEGATECALL to the address CREATE left on the stack), store
+value / address / calldatasize, emit a log, probe CALLDATASIZE / CODESIZE and revert, fail, or are empty; with and
+without value; inside callees (rolled back with them; the attempt counter is not); sometimes the address the second
+attempt gets is already taken (collision rule). Compared in addition: the code of the created accounts (`C<addr>=…`),
+their storage and balances. Not generated: init code with symbolic bytes, CREATE2.
+
 What the generator deliberately avoids, because there the model is an approximation or z3's simplifier is stronger than
 the driver's (Driver/Sevm.lean: constant folding + double-negation elimination):
   * symbolic values in the positions `int_of` concretises through `substitute(x, substitution)` (JUMPI/JUMP targets,
@@ -698,6 +705,10 @@ def compare_core(ctx, n):
             code = asm.assemble(g.program())
         except asm.AsmError:
             continue
+        if any(k.startswith("create:") for k in g.hist) and rng.random() < 0.3:
+            # the address the second CREATE attempt gets is taken: the collision rule (0 pushed, nothing else happens)
+            callees[0xaaaa0003] = callees.get(0x3000, b"\x00")
+            ctx.count("core:create:collision-setup")
         ctx.count("core:with-callees" if callees else "core:single-contract")
         for k, v in g.hist.items():
             ctx.count("core:" + k, v)
